@@ -32,7 +32,7 @@ def gen_workload(kind, seed, size):
         meta.pop("edb", None)
         meta.update({"template": kind, "rules": t.rules, "no_rule_min": True, "outputs": t.outputs})
         return Workload("%s:%d" % (kind, seed), t.text(), t.facts, meta, "generated")
-    g = {"c03": gen.gen_c03, "c03c": gen.gen_c03c, "c22": gen.gen_c22, "c20": gen.gen_c20}[kind]
+    g = {"c03": gen.gen_c03, "c03c": gen.gen_c03c, "c22": gen.gen_c22, "c20": gen.gen_c20, "c21": gen.gen_c21}[kind]
     p = g(seed, size)
     return Workload("%s:%d" % (kind, seed), p.text(), p.facts, p.meta, "generated")
 
